@@ -75,6 +75,10 @@ DIRECTED = [
     [['inputl', [], [1, (0.3).hex(), 2]], ['sq', [1], None], ['sum', [[0, 1, 2]], None], ['prod', [[0, 1, 2]], None]],
     [['cint', [], 3], ['cfloat', [], (0.5).hex()], ['cint', [], 2], ['prod', [[0, 1, 2]], None], ['prod', [[1, 0, 2, 1]], None], ['inprod', [[0, 2], [2, 1]], None]],
     [['cfloat', [], (3.0).hex()], ['mulf', [0], (0.5).hex()], ['mulf', [0], (2.0).hex()], ['mulf', [1], (4.0).hex()], ['lshift', [1], 4], ['lshift', [1], 3]],
+    # remainders modulo a public FRACTIONAL modulus: a whole dividend does not make the remainder whole
+    [['cint', [], 4], ['modf', [0], (2.5).hex()], ['mulf', [1], (0.3).hex()], ['cfloat', [], (0.3).hex()], ['mul', [1, 3], None],
+     ['cint', [], 1], ['modf', [5], (0.75).hex()], ['sq', [6], None], ['cint', [], 7], ['modf', [8], (2.0).hex()], ['sq', [9], None],
+     ['cfloat', [], (5.5).hex()], ['modf', [11], (2.0).hex()], ['sq', [12], None]],
 ]
 
 
